@@ -614,6 +614,35 @@ fn main() {
             rep.sample("update", format!("{}.update(Time({})) -> {}", sfmt(&s0), dt_ns, sfmt(&s)));
         }
     }
+    // ---- 1b. update is a pure function of (state, dt): the result must not depend on which update was
+    // executed before it (on another state). Predecessor dts are chosen in arithmetic relation to dt
+    // (equal, negated, +- 2^k ns, +- whole seconds) because a hidden memo keyed on part of dt would only
+    // collide there.
+    for case in args.cases("update-purity", 60_000, 3_000_000) {
+        let mut rng = Rng::new(args.seed, 1411, case);
+        let s0 = gen_state(&mut rng, Mag::Moderate);
+        let other = gen_state(&mut rng, Mag::Moderate);
+        let dt = gen_dt(&mut rng, case);
+        let clampdt = |x: i64| x.clamp(-DT_MAX, DT_MAX);
+        let related = match rng.below(6) {
+            0 => dt,
+            1 => -dt,
+            2 | 3 => clampdt(dt + rng.sign() as i64 * (1i64 << rng.below(47)) * rng.range_i64(1, 3)),
+            4 => clampdt(dt + rng.range_i64(-50_000, 50_000) * 1_000_000_000),
+            _ => clampdt(dt ^ (1i64 << rng.below(46))),
+        };
+        let unrelated = gen_dt(&mut rng, case.wrapping_mul(7) + 3);
+        let run = |pred: i64| { let mut o = other; o.update(Time(pred)); let mut s = s0; s.update(Time(dt)); s };
+        let (r1, r2) = match (catch(|| run(related)), catch(|| run(unrelated))) { (Ok(a), Ok(b)) => (a, b), _ => { rep.violation("C14/update/panic/purity", "update-purity", case, format!("{}.update(Time({})) panicked", sfmt(&s0), dt)); continue; } };
+        rep.eval();
+        rep.tally("update_purity_pairs");
+        rep.distinct(("update-purity", dt_class(dt), (related - dt).unsigned_abs().checked_ilog2()));
+        if sbits(&r1) != sbits(&r2) {
+            rep.violation("C14/update/depends-on-previous-call", "update-purity", case, format!("{}.update(Time({})) gives {} after an update(Time({})) on another state but {} after update(Time({}))", sfmt(&s0), dt, sfmt(&r1), related, sfmt(&r2), unrelated));
+        }
+        if rep.want_sample("update-purity") { rep.sample("update-purity", format!("dt={} predecessor dts {} / {}", dt, related, unrelated)); }
+    }
+    rep.floor("update_purity_pairs", 1000);
     // ---- 2. any finite triple: no panic, acceleration untouched (overflow only observed)
     for case in args.cases("update-extreme", 40_000, 2_000_000) {
         let mut rng = Rng::new(args.seed, 1402, case);
